@@ -161,7 +161,8 @@ impl BackoffStorage {
                     Some(backoff_time) => backoff_time
                         .checked_add(slack)
                         .map(|backoff| backoff > now)
-                        .unwrap_or(false),
+                        // not representable means far in the future: keep the backoff
+                        .unwrap_or(true),
                     None => false,
                 };
                 if !keep {
